@@ -393,11 +393,32 @@ func (k *checker) check(a *acc, p *dhcpv4.DHCPv4, scope string, order int64, wir
 	default:
 		k.st.malformed.Add(1)
 	}
-	if got == ref.Canon {
-		return ref.Class
-	}
-	// DESIGN.md §8a item 4: a zero-length value and an absent option are identified.
-	if present && len(raw) == 0 && got == v4opt.Interpret(a.Kind, false, nil).Canon {
+	zeroOK := present && len(raw) == 0 && got == v4opt.Interpret(a.Kind, false, nil).Canon // DESIGN.md §8a item 4: a zero-length value and an absent option are identified
+	if got == ref.Canon || zeroOK {
+		// history: the caller overwrites what the accessor returned, then asks again
+		var got2 string
+		if pv, st := fw.Safe(func() { poisonResult(a, p); got2 = a.get(p) }); pv != nil {
+			k.c.Report(fw.Violation{Fingerprint: a.Name + "|panic-after-editing-an-earlier-result|" + fw.PanicSite(st), Order: order, Scope: scope,
+				Input: fmt.Sprintf("option %d = %s", a.Code, fw.Hex(raw)), Observed: fmt.Sprintf("panic: %v at %s", pv, st),
+				Expected: "a value or the documented default", GoTest: goTest(a, present, raw, wire)})
+		} else {
+			// the reference reads whatever the raw bytes are NOW: if the result aliased them (not forbidden by
+			// the statement) both sides move together; state outside the packet must not matter
+			v2, present2 := p.Options[a.Code]
+			raw2 := append([]byte(nil), v2...)
+			ref2 := v4opt.Interpret(a.Kind, present2, raw2)
+			zero2 := present2 && len(raw2) == 0 && got2 == v4opt.Interpret(a.Kind, false, nil).Canon
+			if ref2.Class != v4opt.Unspecified && got2 != ref2.Canon && !zero2 {
+				in := "option absent"
+				if present {
+					in = fmt.Sprintf("option %d = %s (%d bytes)", a.Code, fw.Hex(raw), len(raw))
+				}
+				k.c.Report(fw.Violation{Fingerprint: a.Name + "|second-read-differs-after-editing-the-first-result", Order: order, Scope: scope, Input: in,
+					Observed: a.expr + " = " + got2 + " (second call, after every byte of the first result was overwritten in place; raw option now " + fw.Hex(raw2) + ")", Expected: ref2.Canon,
+					Explain: "the value an accessor returns shares memory with state outside the packet's raw option: editing it changed what the accessor returns next",
+					GoTest:  goTest(a, present, raw, wire)})
+			}
+		}
 		return ref.Class
 	}
 	clause, class, explain := "", "", ""
